@@ -12,7 +12,11 @@
 
    TLC enumerates codec x entry branch x M x sequence of payload-size classes (sizes relative to M);
    each case is a RUN: a fresh stream of one format through which the units are written in order,
-   so that "one fixed offset per format" is judged across units.
+   so that "one fixed offset per format" is judged across units.  For RTP publishers the runs also
+   contain, after the packet that switches the format to re-packetization, frames that arrive in
+   several RTP packets (oversized or small fragments) and packets that yield no payload; the same
+   four formulas are then evaluated over EVERYTHING the format emits while re-packetization is
+   active (FitsAll, ConsecutiveAll, TimestampAll, LosslessOnce), not only over delivered units.
 
    Timestamp, for codecs whose unit is one frame, covers every packet.  For sample-based audio
    (G711, LPCM) and for audio units that carry several frames (MPEG-4 audio, Opus, AC-3) RTP requires
@@ -35,7 +39,9 @@ BranchOK(codec, b) == CASE b = "nonrtp" -> TRUE
                         [] b = "oversize" -> codec \in OversizeCodecs
 
 \* payload-size classes relative to M: [n elements, each of `size` bytes]
-Classes == {"half", "m-3", "m-1", "m", "m+1", "m+3", "3m", "3m+1", "many"}
+\* "2m": a frame that a publisher fragments into a few packets; "aud": an access unit delimiter alone
+\* (H264/H265), which the remuxer strips, so that the publisher's packet yields no payload
+Classes == {"half", "m-3", "m-1", "m", "m+1", "m+3", "2m", "3m", "3m+1", "many", "aud"}
 \* "many small elements": within what the depacketizer of internal/stream accepts per unit
 \* (at most 10 OBUs, 21 NAL units)
 ManyN(codec) == IF codec = "AV1" THEN 8 ELSE 20
@@ -45,10 +51,32 @@ Shape(codec, c, m) == CASE c = "half" -> [n |-> 1, size |-> m \div 2]
                  [] c = "m"    -> [n |-> 1, size |-> m]
                  [] c = "m+1"  -> [n |-> 1, size |-> m + 1]
                  [] c = "m+3"  -> [n |-> 1, size |-> m + 3]
+                 [] c = "2m"   -> [n |-> 1, size |-> 2 * m - 20]
+                 [] c = "aud"  -> [n |-> 1, size |-> 3]
                  [] c = "3m"   -> [n |-> 1, size |-> 3 * m]
                  [] c = "3m+1" -> [n |-> 1, size |-> 3 * m + 1]
                  [] c = "many" -> [n |-> ManyN(codec), size |-> 40]
-ClassOK(codec, c) == c = "many" => codec \in MultiElem
+ClassOK(codec, c) == /\ c = "many" => codec \in MultiElem
+                     /\ c = "aud" => FALSE          \* only in the publisher sequences below
+
+\* How an RTP publisher packetizes a frame: "big" = its maximum is above M (oversized packets, one
+\* packet per NAL unit for the forced remux), "small" = its maximum is below M, so that a frame
+\* larger than that arrives as several RTP packets none of which is oversized.
+PubMax(b, mode, m) == IF mode = "small" THEN m - 50
+                      ELSE IF b = "remux" THEN 3 * m + 600 ELSE m + 300
+CM(c, mode) == [class |-> c, mode |-> mode]
+Big(cs) == [i \in 1..Len(cs) |-> CM(cs[i], "big")]
+\* after the packet that activates re-packetization: frames that span several incoming packets
+\* (oversized fragments, small fragments) and packets that decode to no payload
+PublisherSeqs(cd) ==
+    { <<CM("m+1", "big"), CM("3m", "big"), CM("half", "big")>>,
+      <<CM("m+1", "big"), CM("2m", "small"), CM("half", "small")>>,
+      <<CM("m+1", "big"), CM("3m", "small"), CM("half", "small"), CM("2m", "small"), CM("m", "big")>>,
+      <<CM("3m", "big"), CM("3m", "small")>> }
+    \cup (IF cd \in {"H264", "H265"}
+          THEN { <<CM("m+1", "big"), CM("aud", "small"), CM("half", "small")>>,
+                 <<CM("3m", "big"), CM("aud", "big"), CM("2m", "small"), CM("aud", "small")>> }
+          ELSE {})
 
 AllInOrder == <<"half", "m-3", "m-1", "m", "m+1", "m+3", "3m", "3m+1", "many">>
 Sequences(codec) ==
@@ -66,15 +94,37 @@ TimestampOK(u, off) ==
     /\ u.uniform => \A i \in DOMAIN u.pkts : u.pkts[i].tsoff = off
 Lossless(u)    == u.dsig = u.psig /\ u.derrs = <<>>
 
+\* ------------------------------------------------------------------ layer 2, over everything emitted in a run
+\* While the server generates the packets of a format (non-RTP publisher; after the forced remux or
+\* an oversized packet switched an RTP publisher to re-packetization) EVERY packet it emits for the
+\* format is a generated one, whatever call of writeUnitInner it leaves with.  es: the emissions of
+\* the run made while re-packetization was active, in order, e = [pkts, uniform].
+AllPkts(es)       == Flatten([i \in 1..Len(es) |-> es[i].pkts])
+FitsAll(es, m)    == \A i \in DOMAIN es : \A j \in DOMAIN es[i].pkts : es[i].pkts[j].len <= m
+ConsecutiveAll(es) ==
+    LET ps == AllPkts(es) IN \A i \in 1..(Len(ps) - 1) : ps[i + 1].seq = (ps[i].seq + 1) % 65536
+TimestampAll(es) ==
+    LET ps == AllPkts(es) IN
+    ps # <<>> => \A i \in DOMAIN es : TimestampOK([pkts |-> es[i].pkts, uniform |-> es[i].uniform], ps[1].tsoff)
+\* depacketizing the emitted packets as one stream yields the delivered payloads, each exactly once
+\* (pel / del: the elements of the delivered payloads / of what the depacketizer returned, in order)
+LosslessOnce(pel, del, derrs) == del = pel /\ derrs = <<>>
+
 \* ------------------------------------------------------------------ generator: one state per (codec, branch)
 VARIABLES codec, branch
 Init == codec \in Codecs /\ branch \in {b \in Branches : BranchOK(codec, b)}
 Next == UNCHANGED <<codec, branch>>
 Spec == Init /\ [][Next]_<<codec, branch>>
 
+UnitsOf(cms, m) ==
+    [i \in 1..Len(cms) |-> [class |-> cms[i].class, n |-> Shape(codec, cms[i].class, m).n,
+                            size |-> Shape(codec, cms[i].class, m).size,
+                            pub |-> PubMax(branch, cms[i].mode, m)]]
 EmitCases ==
-    \A m \in Ms : \A cs \in Sequences(codec) :
-        Emit("CASE", [codec |-> codec, branch |-> branch, m |-> m,
-                      units |-> [i \in 1..Len(cs) |-> [class |-> cs[i], n |-> Shape(codec, cs[i], m).n,
-                                                        size |-> Shape(codec, cs[i], m).size]]])
+    \A m \in Ms :
+        /\ \A cs \in Sequences(codec) :
+              Emit("CASE", [codec |-> codec, branch |-> branch, m |-> m, units |-> UnitsOf(Big(cs), m)])
+        /\ branch # "nonrtp" =>
+              \A cms \in PublisherSeqs(codec) :
+                  Emit("CASE", [codec |-> codec, branch |-> branch, m |-> m, units |-> UnitsOf(cms, m)])
 =============================================================================
